@@ -194,6 +194,9 @@ def process_state(args):
             if do_kills:
                 kpcs = sorted(pts) if tier == "thorough" else [sorted(pts)[(idx + n_case) % len(pts)]]
                 todo += [("kill", pts[pc][0], pts[pc][1], pc) for pc in kpcs]
+                if tier == "thorough" and idx % 29 == 0:
+                    # SIGKILL at every 4th concrete write point of this step (hot journals of every size)
+                    todo += [("kill", at, "before", None) for at in range(1, n + 1, 4)]
             for mode, at, when, pc in todo:
                 db = os.path.join(wd, "f.sqlite3")
                 for suffix in ("", "-journal", "-wal", "-shm"):
